@@ -50,7 +50,7 @@ def generate(rng, tier):
         plan += [(s, "dense") for s in rng.sample(streams, min(len(streams), 4))]
     for s, prof in plan:
         for tag, data in R.mutations(rng, s, streams, prof):
-            cases.append(R.make_case(data, "01234", FLAVOUR, ORACLES, (tag, "mut:" + s.cls)))
+            cases.append(R.make_case(data, "01234", FLAVOUR, ORACLES, (tag, "mut:" + s.cls), base=s.data))
     return cases
 
 
